@@ -13,9 +13,9 @@ ID = "C07"
 RULE = (
     "call HISTORIES (2..14 operations) over a pool of caller-owned arrays: 2..5 vectors (non-negative with exact zeros, or signed for the all-reals metrics), a data matrix X with labels Y, "
     "a validation set and a query matrix (all containing exact zeros). Operations: evaluate(any of the 47 identifiers, vector i, vector j; i == j passes the SAME object twice), "
-    "fit(any of the four models, drawn metric), predict(last fitted model), pre_compute_distance(X, temp file), get_distances(last model), fit_twice_compare. "
+    "rewrite(vector i in place with new values - the caller re-uses a buffer), fit(any of the four models, drawn metric), predict(last fitted model), pre_compute_distance(X, temp file), get_distances(last model), fit_twice_compare. "
     "Oracle after EVERY operation: tobytes()/dtype/shape of every pooled array equal their pristine copies; the first value returned for (identifier, bytes(x), bytes(y)) is memoised and every later "
-    "evaluation must be bit-identical; two fresh models fitted on equal data agree on every node field, the conquest order and predictions. "
+    "evaluation must be bit-identical, and every evaluation must equal the closed form of the current contents of its arguments (section 5 tolerance); two fresh models fitted on equal data agree on every node field, the conquest order and predictions. "
     "non-trivial: an eps-shifted metric is evaluated >= 2 times on an array containing an exact zero, or a fit/predict lies between two evaluations of one key; distinct by case hash"
 )
 ASSUMPTIONS = ["histories are generated as data (operation lists interpreted by check_case); no operation has a state-dependent precondition except 'a model was fitted', which the interpreter handles by fitting one"]
@@ -56,7 +56,9 @@ def _case(draw):
     fit = st.tuples(st.just("fit"), st.sampled_from(["sup", "semi", "knn", "unsup"]), st.sampled_from(FIT_METRICS)).map(list)
     other = st.one_of(st.just(["predict"]), st.just(["get_distances"]), st.tuples(st.just("pre_compute"), st.sampled_from(FIT_METRICS), st.sampled_from(["txt", "csv"])).map(list),
                       st.tuples(st.just("fit_twice"), st.sampled_from(["sup", "semi", "knn", "unsup"]), st.sampled_from(FIT_METRICS)).map(list))
-    ops = draw(st.lists(st.one_of(ev, ev, ev2, ev2, fit, other), min_size=2, max_size=14))
+    # the CALLER re-uses a buffer: vector i is overwritten in place with new values (a legitimate caller action)
+    rewrite = st.tuples(st.just("rewrite"), st.integers(0, nv - 1), _vec(dim, signed)).map(list)
+    ops = draw(st.lists(st.one_of(ev, ev, ev2, ev2, fit, other, rewrite), min_size=2, max_size=14))
     if draw(st.booleans()) and ops:
         # replay an earlier evaluation at the end: same key after whatever happened in between
         evs = [o for o in ops if o[0] == "eval"]
@@ -96,6 +98,9 @@ def _predict(m, A):
 def check_case(case):
     lib.setup()
     np = models.np()
+    import copy
+
+    case = copy.deepcopy(case)  # "rewrite" operations update the interpreter's view of the vectors
     import opfython.math.distance as dist
     import opfython.math.general as g
 
@@ -124,10 +129,20 @@ def check_case(case):
     with tempfile.TemporaryDirectory(prefix="c07-") as tmp:
         for oi, op in enumerate(case["ops"]):
             kinds.add(op[0])
-            if op[0] == "eval":
+            if op[0] == "rewrite":
+                _, i, newv = op
+                A["v%d" % i][:] = np.array(newv, dtype=float)  # same array object, new contents
+                case["vecs"][i] = list(newv)
+                pristine["v%d" % i] = (A["v%d" % i].tobytes(), A["v%d" % i].dtype, A["v%d" % i].shape)
+                touched_between |= seen_keys
+            elif op[0] == "eval":
                 _, name, i, j = op
                 x, y = A["v%d" % i], A["v%d" % j]
                 val = np.float64(libcall(dist.DISTANCES[name], x, y))
+                # the value depends on the argument VALUES only: it must be the closed form of the CURRENT contents (the reference is
+                # computed without calling the library, so the check does not disturb the history it observes)
+                okc, msg = M.compare(name, val, case["vecs"][i], case["vecs"][j], shifted_inputs=True)
+                require(okc, "value_depends_on_argument_values_only", lambda: "%s(v%d, v%d) on the caller's (re-used) arrays: %s (history %r)" % (name, i, j, msg, case["ops"][: oi + 1]))
                 key = (name, x.tobytes(), y.tobytes())
                 bits = val.tobytes()
                 if key in memo:
